@@ -392,6 +392,27 @@ def renest_else(ref_fn, cur_fn) -> int:
     return n
 
 
+def strip_new_casts(ref_fn, cur_fn) -> int:
+    """`cast(T, x)` -> `x` in the analysed function where the reference function does not wrap that expression (typing.cast is the identity at
+    run time; the reference only selects the spelling the rules were written against)."""
+    def is_cast(n):
+        return isinstance(n, ast.Call) and isinstance(n.func, ast.Name) and n.func.id == "cast" and len(n.args) == 2 and not n.keywords
+
+    ref_wrapped = {ast.unparse(n.args[1]) for n in ast.walk(ref_fn) if is_cast(n)}
+    count = [0]
+
+    class Strip(ast.NodeTransformer):
+        def visit_Call(self, n):
+            self.generic_visit(n)
+            if is_cast(n) and ast.unparse(n.args[1]) not in ref_wrapped:
+                count[0] += 1
+                return n.args[1]
+            return n
+
+    cur_fn.body = [Strip().visit(st) for st in cur_fn.body]
+    return count[0]
+
+
 def _falls_off_same(fn, blk, st) -> bool:
     """True when dropping a trailing `continue` (or bare `return`) of st's body is behaviour-preserving once st (with the rest of the block as its
     else-arm) is the last statement of `blk`: blk must be the body of a loop (for `continue`) or of the function (for `return`)."""
@@ -559,6 +580,7 @@ def normalise_module(rel: str, tree: ast.AST) -> int:
         # be aligned once the comparisons inside it are): iterate to a fixpoint (bounded)
         for _round in range(3):
             k = 0
+            k += strip_new_casts(rf, cur)
             k += inline_adjacent_temps(rf, cur)
             k += reintroduce_temps(rf, cur)
             k += renest_else(rf, cur)
